@@ -290,7 +290,8 @@ def P_C09_compile (i : IDL) (genOk panicked : Bool) (rustc : Option String) : Op
 def P_C09_front (parsed : Option IDL) (status : String) (emitted : Bool) (same : Option Bool) : Option String :=
   match parsed with
   | none =>
-    if emitted then some "rejected-text-but-code-emitted"
+    if status == "panic" then some "generator-panicked-on-rejected-input"
+    else if emitted then some "rejected-text-but-code-emitted"
     else if status != "err" then some ("rejected-text-without-diagnostic status=" ++ status)
     else none
   | some i =>
